@@ -51,6 +51,9 @@ type Analyzer struct {
 	// PreserveFields: an opaque call does not modify the fields of the objects
 	// the current function received (stated as an assumption by the rule).
 	PreserveFields func(call ssa.CallInstruction) bool
+	// NonNilResult reports that the (single, interface-typed) result of the
+	// call is never nil, as established by another analysis (error shapes).
+	NonNilResult func(call *ssa.Call) bool
 	// InvokeSummary refines the result of an interface method call.
 	InvokeSummary func(h *Handle, call *ssa.Call, result AV)
 	// Reached records the functions whose bodies were analysed.
@@ -435,6 +438,17 @@ func (a *Analyzer) runFunc(ctx int, fn *ssa.Function, entry *State, depth int) [
 					var rs []AV
 					for _, r := range t.Results {
 						rs = append(rs, a.val(st, ctx, r))
+					}
+					if a.trace {
+						nl := ""
+						for _, r := range rs {
+							if ref, ok := r.(ARef); ok {
+								nl += fmt.Sprintf(" nilx=%d", st.nilx[ref.id])
+							} else {
+								nl += fmt.Sprintf(" %T", r)
+							}
+						}
+						fmt.Printf("DBG return %s block %d:%s | %s\n", fn.Name(), b.Index, nl, st.String())
 					}
 					exits = append(exits, Exit{st, rs})
 				}
